@@ -32,8 +32,9 @@ type Obj = cwf.Obj
 type opFunc func(c Obj) J
 
 // A comparator decides whether observation and expectation agree on the
-// observables the property names.
-type cmpFunc func(c Obj, obs, exp J) bool
+// observables the property names; it returns the indices (into a list-valued
+// observation; 0 for a scalar one) that differ.
+type cmpFunc func(c Obj, obs, exp J) []int
 
 var ops = map[string]opFunc{}
 var cmps = map[string]cmpFunc{}
@@ -162,10 +163,11 @@ func cmdReplay(args []string) {
 			st.Samples = append(st.Samples, Obj{"case": c, "obs": obs})
 		}
 		mu.Unlock()
-		if cmps[name](c, obs, c["exp"]) {
+		bad := cmps[name](c, obs, c["exp"])
+		if len(bad) == 0 {
 			return nil
 		}
-		return marshal(Obj{"case": c, "obs": obs})
+		return marshal(Obj{"case": c, "obs": obs, "bad": bad})
 	})
 	f, err := os.Create(*out)
 	if err != nil {
